@@ -1,4 +1,305 @@
-import BipVerif.Model.Bip44
+/-
+C03 — BIP-32 / SLIP-0010 key derivation: everything that needs no curve algebra.
+Re-hash loop, validity of derived private keys, child/master metadata, refusals, error classes,
+depth of a derived path.  Property theorems only; the lemmas live in `BipVerif/Lemmas/Slip10.lean`
+(and `Lemmas/Kholaw.lean` for the scheme-generic `childKey` dispatch).
+The curve arithmetic, the hash functions and HMAC are opaque here (never unfolded).
+-/
+import BipVerif.Lemmas.Kholaw
+
 namespace BipVerif.Props.C03
-theorem placeholder : True := trivial
+open BipVerif BipVerif.Prim BipVerif.Model
+
+/-! ## 1. the SLIP-0010 re-hash loop -/
+
+/-- whatever the loop returns is a valid `IL`: below `n`, and (private side, `kpar = some k`) the
+child key `(IL + k) mod n` is not zero -/
+theorem slip10Retry_spec (n : Nat) (cc : Bytes) (idx : Nat) (kpar : Option Nat) (fuel : Nat)
+    (il ir : Bytes) (v : Nat) (ir' : Bytes)
+    (h : slip10Retry n cc idx kpar fuel (il, ir) = .ok (v, ir')) :
+    v < n ∧ (∀ k, kpar = some k → (v + k) % n ≠ 0) :=
+  Model.slip10Retry_spec n cc idx kpar fuel il ir v ir' h
+
+/-- one step of the loop.  Common case (plain BIP-32): `IL < n` and no zero sum ⇒ `(IL, IR)` is
+returned at once.  Otherwise SLIP-0010's rule: continue with
+`HMAC-SHA512(cc, 0x01 ‖ IR ‖ ser32 idx)`. -/
+theorem slip10Retry_unfold (n : Nat) (cc : Bytes) (idx : Nat) (kpar : Option Nat) (fuel : Nat)
+    (il ir : Bytes) :
+    ((n ≤ Bytes.toNatBE il ∨ ∃ k, kpar = some k ∧ (Bytes.toNatBE il + k) % n = 0) →
+      slip10Retry n cc idx kpar (fuel + 1) (il, ir) =
+        slip10Retry n cc idx kpar fuel (hmacSha512Halves cc ([1] ++ ir ++ ser32 idx))) ∧
+    (¬ (n ≤ Bytes.toNatBE il ∨ ∃ k, kpar = some k ∧ (Bytes.toNatBE il + k) % n = 0) →
+      slip10Retry n cc idx kpar (fuel + 1) (il, ir) = .ok (Bytes.toNatBE il, ir)) ∧
+    slip10Retry n cc idx kpar 0 (il, ir) = .error .fuel :=
+  ⟨Model.slip10Retry_bad n cc idx kpar fuel il ir, Model.slip10Retry_good n cc idx kpar fuel il ir, rfl⟩
+
+/-- the common case spelled out -/
+theorem slip10Retry_common (n : Nat) (cc : Bytes) (idx : Nat) (kpar : Option Nat) (fuel : Nat)
+    (il ir : Bytes) (hlt : Bytes.toNatBE il < n)
+    (hnz : ∀ k, kpar = some k → (Bytes.toNatBE il + k) % n ≠ 0) :
+    slip10Retry n cc idx kpar (fuel + 1) (il, ir) = .ok (Bytes.toNatBE il, ir) :=
+  Model.slip10Retry_good n cc idx kpar fuel il ir
+    (fun hb => hb.elim (fun h => absurd hlt (Nat.not_lt.mpr h)) (fun ⟨k, hk, hz⟩ => hnz k hk hz))
+
+/-- the loop can only fail by exhausting its fuel (4096 iterations; never observed) -/
+theorem slip10Retry_error (n : Nat) (cc : Bytes) (idx : Nat) (kpar : Option Nat) (fuel : Nat)
+    (s : Bytes × Bytes) (e : Err) (h : slip10Retry n cc idx kpar fuel s = .error e) : e = .fuel :=
+  Model.slip10Retry_error n cc idx kpar fuel s e h
+
+/-! ## 2. derived private keys are valid -/
+
+/-- ECDSA curves: the child private key is a valid private key (32 bytes, `0 < k' < n`) and the
+child chain code has 32 bytes.  (No assumption on the parent key is needed.) -/
+theorem ckdPriv_key_valid (nd : Node) (priv : Bytes) (idx : Nat) (h : nd.curve.isEcdsa = true)
+    (k cc : Bytes) (hok : slip10CkdPriv nd priv idx = .ok (k, cc)) :
+    privValid nd.curve k = true ∧ k.length = 32 ∧ 0 < Bytes.toNatBE k ∧
+      Bytes.toNatBE k < nd.curve.order ∧ cc.length = 32 := by
+  obtain ⟨hv, hcc⟩ := Model.ckdPriv_key_valid nd priv idx h k cc hok
+  obtain ⟨h1, h2, h3⟩ := (privValid_ecdsa_iff _ h k).mp hv
+  exact ⟨hv, h1, h2, h3, hcc⟩
+
+/-- … and its value is `(IL + k_par) mod n` for the `IL` selected by the loop, with `IR` as chain
+code -/
+theorem ckdPriv_key_value (nd : Node) (priv : Bytes) (idx : Nat) (h : nd.curve.isEcdsa = true)
+    (k cc : Bytes) (hok : slip10CkdPriv nd priv idx = .ok (k, cc)) :
+    ∃ il, slip10Retry nd.curve.order nd.chainCode idx (some (Bytes.toNatBE priv)) 4096
+              (hmacSha512Halves nd.chainCode
+                (if isHardened idx then [0] ++ priv ++ ser32 idx else nd.pub ++ ser32 idx)) = .ok (il, cc) ∧
+      Bytes.toNatBE k = (il + Bytes.toNatBE priv) % nd.curve.order :=
+  Model.ckdPriv_key_value nd priv idx h k cc hok
+
+/-- the ECDSA private derivation can fail only by fuel exhaustion (`n < 2^256`, so the 32-byte
+conversion never overflows) -/
+theorem ckdPriv_ecdsa_error (nd : Node) (priv : Bytes) (idx : Nat) (h : nd.curve.isEcdsa = true)
+    (e : Err) (he : slip10CkdPriv nd priv idx = .error e) : e = .fuel :=
+  Model.slip10CkdPriv_ecdsa_error nd priv idx h e he
+
+/-- SLIP-0010 ed25519 (hardened): key and chain code are the two halves of one HMAC -/
+theorem ckdPriv_ed25519 (nd : Node) (priv : Bytes) (idx : Nat) (h : nd.curve.isEcdsa = false)
+    (hh : isHardened idx = true) :
+    slip10CkdPriv nd priv idx = .ok (hmacSha512Halves nd.chainCode ([0] ++ priv ++ ser32 idx)) :=
+  Model.slip10CkdPriv_ed nd priv idx h hh
+
+/-! ## 3. metadata of a child -/
+
+/-- depth, index, parent fingerprint, curve and scheme of a derived child; a child is private
+exactly when its parent is -/
+theorem child_metadata (nd : Node) (idx : Nat) (c : Node) (h : slip10ChildKey nd idx = .ok c) :
+    c.depth = nd.depth + 1 ∧ c.index = idx ∧ idx < 2 ^ 32 ∧ c.parentFp = nd.fingerprint.take 4 ∧
+      c.curve = nd.curve ∧ c.scheme = nd.scheme ∧ c.priv.isSome = nd.priv.isSome :=
+  Model.child_metadata nd idx c h
+
+/-- the fingerprint (`hash160(pub)[:4]`) has exactly 4 bytes, so `c.parentFp = nd.fingerprint` -/
+theorem fingerprint_length (nd : Node) :
+    nd.fingerprint.length = 4 ∧ nd.fingerprint.take 4 = nd.fingerprint :=
+  ⟨Model.fingerprint_length nd, Model.fingerprint_take nd⟩
+
+/-- a private child stores the public key of its own (valid) private key -/
+theorem child_sound (nd : Node) (idx : Nat) (c : Node) (hp : nd.priv.isSome = true)
+    (h : slip10ChildKey nd idx = .ok c) :
+    ∃ k, c.priv = some k ∧ privValid c.curve k = true ∧ pubOfPriv c.curve k = some c.pub :=
+  Model.slip10ChildKey_sound nd idx c hp h
+
+/-! ## 4. refusals -/
+
+/-- SLIP-0010 ed25519 / ed25519-blake2b (any non-ECDSA curve): non-hardened private derivation is
+refused with `Bip32KeyError` -/
+theorem ed25519_soft_refused (nd : Node) (priv : Bytes) (idx : Nat) (hc : nd.curve.isEcdsa = false)
+    (hp : nd.priv = some priv) (hh : isHardened idx = false) (hi : idx < 2 ^ 32) :
+    slip10ChildKey nd idx = .error .key :=
+  Model.ed25519_soft_refused nd priv idx hc hp hh hi
+
+/-- a public-only parent refuses hardened indices with `Bip32KeyError` (SLIP-0010 …) -/
+theorem public_hardened_refused (nd : Node) (idx : Nat) (hp : nd.priv = none)
+    (hh : isHardened idx = true) (hi : idx < 2 ^ 32) : slip10ChildKey nd idx = .error .key :=
+  Model.public_hardened_refused nd idx hp hh hi
+
+/-- … and so does every other scheme (`ChildKey` dispatch over SLIP-0010, BIP32-Ed25519,
+Byron legacy) -/
+theorem public_hardened_refused_any_scheme (nd : Node) (idx : Nat) (hp : nd.priv = none)
+    (hh : isHardened idx = true) (hi : idx < 2 ^ 32) : childKey nd idx = .error .key :=
+  Model.childKey_public_hardened_refused nd idx hp hh hi
+
+/-- SLIP-0010 non-ECDSA curves have no public derivation at all -/
+theorem ed25519_public_refused (nd : Node) (idx : Nat) (hc : nd.curve.isEcdsa = false)
+    (hp : nd.priv = none) (hi : idx < 2 ^ 32) : slip10ChildKey nd idx = .error .key :=
+  Model.ed25519_public_refused nd idx hc hp hi
+
+/-- indices that do not fit 32 bits are refused with `ValueError`, before anything else -/
+theorem index_range (nd : Node) (idx : Nat) (h : 2 ^ 32 ≤ idx) :
+    slip10ChildKey nd idx = .error .value ∧ childKey nd idx = .error .value :=
+  ⟨Model.slip10ChildKey_range nd idx h, Model.childKey_index_range nd idx h⟩
+
+/-- a neutered node carries no private key (and is otherwise unchanged) -/
+theorem neuter_has_no_private (nd : Node) :
+    nd.neuter.priv = none ∧ nd.neuter.pub = nd.pub ∧ nd.neuter.chainCode = nd.chainCode ∧
+      nd.neuter.depth = nd.depth ∧ nd.neuter.index = nd.index ∧ nd.neuter.parentFp = nd.parentFp ∧
+      nd.neuter.fingerprint = nd.fingerprint :=
+  ⟨rfl, rfl, rfl, rfl, rfl, rfl, rfl⟩
+
+/-- the ECDSA private derivation never raises `Bip32KeyError` -/
+theorem ckdPriv_never_key (nd : Node) (k : Bytes) (idx : Nat) (hc : nd.curve.isEcdsa = true)
+    (hp : nd.priv = some k) : slip10ChildKey nd idx ≠ .error .key :=
+  Model.ckdPriv_never_key nd k idx hc hp
+
+/-! ## 5. master key -/
+
+/-- `FromSeed` raises `ValueError` for seeds shorter than 16 bytes, and otherwise only when the key
+layer refuses to compute the public key of the valid master key (`ValueError` since the repair of
+the third-party exception leak; cannot happen on a curve whose key layer is total, see below) -/
+theorem master_spec (c : CurveT) (seed : Bytes) :
+    slip10Master c seed = .error .value ↔
+      seed.length < 16 ∨
+        (16 ≤ seed.length ∧ ∃ k cc, slip10MasterLoop c 4096 seed = .ok (k, cc) ∧ pubOfPriv c k = none) :=
+  Model.master_spec c seed
+
+/-- short seeds are always refused with `ValueError` -/
+theorem master_short_seed (c : CurveT) (seed : Bytes) (h : seed.length < 16) :
+    slip10Master c seed = .error .value :=
+  (Model.master_spec c seed).mpr (Or.inl h)
+
+/-- `ValueError` *exactly* for seeds shorter than 16 bytes when every valid private key has a
+public key — by definition for the SLIP-0010 ed25519 classes -/
+theorem master_spec_of_total (c : CurveT) (seed : Bytes) :
+    ((∀ k, privValid c k = true → pubOfPriv c k ≠ none) →
+      (slip10Master c seed = .error .value ↔ seed.length < 16)) ∧
+    (c = .ed25519 ∨ c = .ed25519Blake2b →
+      (slip10Master c seed = .error .value ↔ seed.length < 16)) :=
+  ⟨Model.master_spec_of_total c seed, fun hc => Model.master_spec_ed c hc seed⟩
+
+/-- all error classes of `FromSeed`; `Bip32KeyError` is impossible (the loop tested validity) -/
+theorem master_errors (c : CurveT) (seed : Bytes) (e : Err) (h : slip10Master c seed = .error e) :
+    (e = .value ∧ seed.length < 16) ∨ (16 ≤ seed.length ∧ (e = .fuel ∨ e = .value)) :=
+  Model.master_errors c seed e h
+
+/-- the master loop returns the first iterate of `I ↦ HMAC-SHA512(key_c, I)` (starting from the
+seed) whose left half is a valid private key; `j` counts the rejected iterates -/
+theorem masterLoop_spec (c : CurveT) (fuel : Nat) (data k cc : Bytes) :
+    slip10MasterLoop c fuel data = .ok (k, cc) ↔
+      ∃ j, j < fuel ∧ (∀ i, i < j → privValid c ((mstIter c (i + 1) data).take 32) = false) ∧
+        privValid c ((mstIter c (j + 1) data).take 32) = true ∧
+        k = (mstIter c (j + 1) data).take 32 ∧ cc = (mstIter c (j + 1) data).drop 32 := by
+  rw [Model.slip10MasterLoop_ok_iff]
+  simp only [mstValid_eq]
+
+/-- `mstIter c j` is the `j`-fold iterate of HMAC with the curve's key -/
+theorem mstIter_def (c : CurveT) (j : Nat) (seed : Bytes) :
+    mstIter c 0 seed = seed ∧
+      mstIter c (j + 1) seed = mstIter c j (hmacSha512 (slip10HmacKey c) seed) :=
+  ⟨rfl, rfl⟩
+
+/-- the master loop fails only by fuel exhaustion, exactly when all iterates are rejected -/
+theorem masterLoop_error (c : CurveT) (fuel : Nat) (data : Bytes) (e : Err) :
+    slip10MasterLoop c fuel data = .error e ↔
+      e = .fuel ∧ ∀ i, i < fuel → privValid c ((mstIter c (i + 1) data).take 32) = false := by
+  rw [Model.slip10MasterLoop_error_iff]
+  simp only [mstValid_eq]
+
+/-- for the SLIP-0010 ed25519 curves the first iterate is always accepted -/
+theorem masterLoop_ed25519 (c : CurveT) (hc : c = .ed25519 ∨ c = .ed25519Blake2b) (fuel : Nat)
+    (data : Bytes) :
+    slip10MasterLoop c (fuel + 1) data = .ok (hmacSha512Halves (slip10HmacKey c) data) :=
+  Model.slip10MasterLoop_ed c hc fuel data
+
+/-- SLIP-0010 ed25519: `FromSeed` is total on seeds of ≥ 16 bytes, with `k = I_L`, `c = I_R` -/
+theorem master_ed25519 (seed : Bytes) (hl : 16 ≤ seed.length) :
+    slip10Master .ed25519 seed = .ok
+      { curve := .ed25519, scheme := .slip10,
+        priv := some (hmacSha512Halves (slip10HmacKey .ed25519) seed).1,
+        pub := 0 :: edEncode (edMulBase (edClamp (sha512 (hmacSha512Halves (slip10HmacKey .ed25519) seed).1))),
+        depth := 0, index := 0,
+        chainCode := (hmacSha512Halves (slip10HmacKey .ed25519) seed).2, parentFp := [0, 0, 0, 0] } :=
+  Model.master_ed25519 seed hl
+
+/-- master node: depth 0, index 0, parent fingerprint `00000000`, key and chain code are the two
+halves selected by the loop, the chain code has 32 bytes, the key is valid and `pub` is its
+public key -/
+theorem master_metadata (c : CurveT) (seed : Bytes) (nd : Node) (h : slip10Master c seed = .ok nd) :
+    16 ≤ seed.length ∧ nd.depth = 0 ∧ nd.index = 0 ∧ nd.parentFp = [0, 0, 0, 0] ∧ nd.curve = c ∧
+      nd.scheme = .slip10 ∧
+      ∃ k cc, slip10MasterLoop c 4096 seed = .ok (k, cc) ∧ nd.priv = some k ∧ nd.chainCode = cc ∧
+        cc.length = 32 ∧ privValid c k = true ∧ pubOfPriv c k = some nd.pub :=
+  Model.master_metadata c seed nd h
+
+/-! ## 6. paths -/
+
+/-- `DerivePath` adds the number of path elements to the depth -/
+theorem derive_depth (nd : Node) (p : Path) (c : Node)
+    (h : derivePathWith slip10ChildKey nd p = .ok c) : c.depth = nd.depth + p.elems.length :=
+  Model.derive_depth nd p c h
+
+/-- `DerivePath` refuses an absolute path (`m/…`) on a non-master node with `ValueError`, and is a
+left fold of `ChildKey` otherwise -/
+theorem derivePath_unfold (child : Node → Nat → R Node) (nd : Node) (p : Path) :
+    derivePathWith child nd p =
+      if (nd.depth > 0 && p.absolute) = true then .error .value else p.elems.foldlM child nd :=
+  Model.derivePathWith_eq child nd p
+
+/-! ## 7. the depth limit
+
+`ChildKey` increases the one-byte depth with `Bip32Depth.Increase()`, which refuses to go beyond
+255 (`ValueError`), after the child key material has been computed and before the child object is
+built. -/
+
+/-- **no child of a depth-255 node exists**: at depth `≥ 255` every `ChildKey` call fails, for
+every index and every key kind -/
+theorem depth_limit (nd : Node) (idx : Nat) (hd : nd.depth ≥ 255) :
+    (∃ e, slip10ChildKey nd idx = .error e) ∧ ¬ ∃ c, slip10ChildKey nd idx = .ok c :=
+  ⟨Model.slip10ChildKey_depth_limit nd idx hd,
+   fun ⟨c, hc⟩ => absurd (Model.slip10ChildKey_depth_lt nd idx c hc) (Nat.not_lt.mpr hd)⟩
+
+/-- … with `ValueError`, whenever the key derivation itself goes through (otherwise the error of
+the key derivation comes first) -/
+theorem depth_limit_value (nd : Node) (idx : Nat) (hi : idx < 2 ^ 32) (hd : nd.depth ≥ 255) :
+    (∀ priv x, nd.priv = some priv → slip10CkdPriv nd priv idx = .ok x →
+      slip10ChildKey nd idx = .error .value) ∧
+    (∀ x, nd.priv = none → isHardened idx = false → slip10CkdPub nd idx = .ok x →
+      slip10ChildKey nd idx = .error .value) :=
+  ⟨fun priv x hp hx => Model.slip10ChildKey_priv_depth_value nd idx priv x hi hp hd hx,
+   fun x hp hh hx => Model.slip10ChildKey_pub_depth_value nd idx x hi hp hh hd hx⟩
+
+/-- the same for every scheme (`ChildKey` dispatch over SLIP-0010, BIP32-Ed25519, Byron legacy) -/
+theorem depth_limit_any_scheme (nd : Node) (idx : Nat) (hd : nd.depth ≥ 255) :
+    (∃ e, childKey nd idx = .error e) ∧ ¬ ∃ c, childKey nd idx = .ok c :=
+  ⟨Model.childKey_depth_limit nd idx hd,
+   fun ⟨c, hc⟩ => absurd (Model.childKey_depth nd idx c hc).1 (Nat.not_lt.mpr hd)⟩
+
+/-- a child exists only below the limit … -/
+theorem child_parent_depth_lt (nd : Node) (idx : Nat) (c : Node) :
+    (slip10ChildKey nd idx = .ok c → nd.depth < 255) ∧ (childKey nd idx = .ok c → nd.depth < 255) :=
+  ⟨Model.slip10ChildKey_depth_lt nd idx c, fun h => (Model.childKey_depth nd idx c h).1⟩
+
+/-- … hence the depth of every child fits the one byte it is serialised into -/
+theorem child_depth_le (nd : Node) (idx : Nat) (c : Node) (h : slip10ChildKey nd idx = .ok c) :
+    c.depth ≤ 255 :=
+  Model.slip10ChildKey_depth_le nd idx c h
+
+theorem child_depth_le_any_scheme (nd : Node) (idx : Nat) (c : Node) (h : childKey nd idx = .ok c) :
+    c.depth = nd.depth + 1 ∧ c.depth ≤ 255 :=
+  ⟨(Model.childKey_depth nd idx c h).2, Model.childKey_depth_le nd idx c h⟩
+
+/-- `DerivePath` never returns a node whose depth does not fit one byte (any scheme) -/
+theorem derive_depth_le (nd : Node) (p : Path) (c : Node) (hd : nd.depth ≤ 255)
+    (h : derivePathWith childKey nd p = .ok c) : c.depth ≤ 255 :=
+  Model.derivePathWith_depth_le childKey Model.childKey_depth_le nd p c hd h
+
+/-- the SLIP-0010 instance, with the exact depth: a path is derivable only if it stays within the
+limit -/
+theorem derive_depth_le_slip10 (nd : Node) (p : Path) (c : Node) (hd : nd.depth ≤ 255)
+    (h : derivePathWith slip10ChildKey nd p = .ok c) :
+    c.depth ≤ 255 ∧ nd.depth + p.elems.length ≤ 255 :=
+  ⟨Model.derivePathWith_depth_le slip10ChildKey Model.slip10ChildKey_depth_le nd p c hd h,
+   Model.derive_depth_bound nd p c hd h⟩
+
+/-- `DerivePath` (any scheme) adds the number of path elements to the depth -/
+theorem derive_depth_any_scheme (nd : Node) (p : Path) (c : Node)
+    (h : derivePathWith childKey nd p = .ok c) : c.depth = nd.depth + p.elems.length :=
+  Model.derive_depth_any nd p c h
+
+/-- consequently the extended-key serialisation of a derived node never fails on the depth byte -/
+theorem derived_depth_serialisable (nd : Node) (p : Path) (c : Node) (hd : nd.depth ≤ 255)
+    (h : derivePathWith childKey nd p = .ok c) : ∃ d, toBytesBE c.depth 1 = .ok d := by
+  have hle := derive_depth_le nd p c hd h
+  exact (toBytesBE_ok_iff _ _).mpr (by omega)
+
 end BipVerif.Props.C03
